@@ -73,7 +73,7 @@ var verifC17 *verifC17State
 
 // generous while everything works; after the first stuck wait (a broken implementation) the remaining
 // waits are cut short so that the run still ends
-var verifC17Timeout = 3 * time.Second
+var verifC17Timeout = 20 * time.Second
 
 func verifC17Format(f int, share bool) format.Format {
 	switch f {
